@@ -2880,9 +2880,7 @@ class SHA1Reader(BinaryIO):
         """
         stored = self.f.read(20)
         # If git option index.skipHash is set the index will be empty
-        if stored != self.sha1.digest() and (
-            not allow_empty or stored != b"\x00" * 20
-        ):
+        if stored != self.sha1.digest() and (not allow_empty or stored != b"\x00" * 20):
             raise ChecksumMismatch(
                 self.sha1.hexdigest(),
                 binascii.hexlify(stored),
@@ -3558,6 +3556,7 @@ def deltify_pack_objects(
       objects: An iterable of (object, path) tuples to deltify.
       window_size: Window size; None for default
       progress: Optional progress reporting callback
+      object_format: Object format that names the objects; None for SHA-1
     Returns: Iterator over type_num, object id, delta_base, content
         delta_base is None for full text entries
     """
@@ -3621,6 +3620,7 @@ def deltas_from_sorted_objects(
       objects: Iterator of sorted objects to deltify
       window_size: Delta window size; None for default
       progress: Optional progress reporting callback
+      object_format: Object format that names the objects; None for SHA-1
 
     Returns:
       Iterator of UnpackedObject entries
